@@ -10,6 +10,7 @@ import operator
 from collections import OrderedDict
 
 import petl as etl
+from petl.util.materialise import cache as etl_cache
 
 from .. import refmodel as ref
 from .. import spaces
@@ -33,6 +34,10 @@ RULE = ('all tables with 0..n rows: kind kv = key over K4 {None, i1, i2, s1} x v
         'by name / by index (thorough: full cross; quick: every key spelling and every value spelling, index '
         'forms tied). Under an alternative spelling the output header may carry the index instead of the name and '
         'a one-element key may come back bare or as a 1-tuple (neither is documented). '
+        'x kind of the input table (on the small kinds, default strategy, never presorted): etl.sort(t, key), '
+        'etl.sort(t, key, reverse=True), etl.sort(t, value field), etl.sort(t, key, buffersize=1) - each with exactly '
+        'the key spec that is then the grouping key -, cache(t), a generator-backed Table; the expected groups are '
+        'those of the row sequence such an operand delivers (computed with the reference order). '
         'x strategy: default, buffersize=1, buffersize=2, presorted=True (only on tables whose key column is '
         'already non-decreasing under the reference order). states = (table, form, strategy) points; a table is '
         'non-trivial when it has >= 2 distinct keys and some key occurs more than once. '
@@ -217,9 +222,10 @@ class Form(object):
     'presorted-only' (only callable with presorted=True on key-sorted input), 'sorted-input' (rowgroupby)."""
 
     def __init__(self, name, kinds, strat, mode, run, exp, nkey=None, law=None, nonempty=False, params=None,
-                 srcrows=False):
+                 srcrows=False, rawinput=False):
         self.name, self.kinds, self.strat, self.mode = name, kinds, strat, mode
         self.run, self.exp, self.nkey, self.law, self.nonempty = run, exp, nkey, law, nonempty
+        self.rawinput = rawinput
         self.srcrows = srcrows        # output rows are input rows (key cells sit at the input's key positions)
         self.params = params or (lambda n: [None])
 
@@ -392,12 +398,13 @@ def _merge_parts(h, rows, K, p):
 
 
 def _run_merge(t, K, kw, p):
-    parts = [(tuple(ph),) + tuple(pr) for ph, pr in _merge_parts(t[0], t[1:], K, p)]
+    # takes the plain table (rawinput): the operand kind is applied to each of the merged parts
+    parts = [make_input((tuple(ph),) + tuple(pr), K, _CUR_OPERAND) for ph, pr in _merge_parts(t[0], t[1:], K, p)]
     return etl.merge(*parts, key=K.key, **kw)
 
 
 form('merge', ALL, 'sorted', 'table', _run_merge,
-     lambda h, rows, K, p: rg.merge(_merge_parts(h, rows, K, p), K.keyhdr), params=_merge_params)
+     lambda h, rows, K, p: rg.merge(_merge_parts(h, rows, K, p), K.keyhdr), params=_merge_params, rawinput=True)
 
 # --- counting -------------------------------------------------------------------------------------------
 form('groupcountdistinctvalues', SINGLE, 'plain', 'table',
@@ -441,9 +448,69 @@ def norm(x):
     return x
 
 
-def observe(f, t, K, kw, p):
+# ---------------------------------------------------------------------------------------------
+# operand-kind axis: what kind of object the input table is (the operators are called WITHOUT presorted,
+# so they have to establish the key order themselves, whatever order / caches the operand brings along)
+#   'sort'       etl.sort(t, <the grouping key spec>)          ascending sort view on the same key
+#   'sort-rev'   etl.sort(t, <the grouping key spec>, reverse=True)
+#   'sort-other' etl.sort(t, <the value field>)                sort view on another key
+#   'sort-buf1'  etl.sort(t, <the grouping key spec>, buffersize=1)   served from chunk files
+#   'cache'      petl.util.materialise.cache(t)
+#   'gen'        a Table whose __iter__ returns a generator producing fresh list rows
+# ---------------------------------------------------------------------------------------------
+
+OPERAND_KINDS = ('sort', 'sort-rev', 'sort-other', 'sort-buf1', 'cache', 'gen')
+_CUR_OPERAND = 'tuple'
+
+
+class GenTable(etl.Table):
+    def __init__(self, rows):
+        self.rows = rows
+
+    def __iter__(self):
+        return (list(r) for r in self.rows)
+
+
+def make_input(t, K, operand):
+    """The object handed to petl for the table t (tuple of tuples, header first)."""
+    if operand == 'tuple':
+        return t
+    lol = [list(r) for r in t]
+    if operand == 'sort':
+        return etl.sort(lol, K.key)
+    if operand == 'sort-rev':
+        return etl.sort(lol, K.key, reverse=True)
+    if operand == 'sort-other':
+        other = K.v
+        if not isinstance(other, int) and other not in lol[0]:
+            other = lol[0][K.vidx]          # merge part that carries the value under another name
+        return etl.sort(lol, other)
+    if operand == 'sort-buf1':
+        return etl.sort(lol, K.key, buffersize=1)
+    if operand == 'cache':
+        return etl_cache(lol)
+    if operand == 'gen':
+        return GenTable(lol)
+    raise ValueError(operand)
+
+
+def seen_rows(rows, K, operand):
+    """The row sequence such an operand delivers, computed with the reference order (not with petl): this is
+    the 'input order' the rows of a group must keep."""
+    if operand in ('sort', 'sort-buf1'):
+        return ref.stable_sort(rows, K.kidx)
+    if operand == 'sort-rev':
+        return ref.stable_sort(rows, K.kidx, reverse=True)
+    if operand == 'sort-other':
+        return ref.stable_sort(rows, [K.vidx])
+    return list(rows)
+
+
+def observe(f, t, K, kw, p, operand='tuple'):
+    global _CUR_OPERAND
+    _CUR_OPERAND = operand
     try:
-        out = f.run(t, K, kw, p)
+        out = f.run(t if f.rawinput else make_input(t, K, operand), K, kw, p)
         if f.mode == 'counter':
             return ('ok', dict(out))
         if f.mode == 'groups':
@@ -506,11 +573,13 @@ def applicable(f, K):
     return True
 
 
-def judge(f, t, K, kw, p, obs=None):
+def judge(f, t, K, kw, p, obs=None, operand='tuple'):
     """Failures of one (form, table, strategy) point: list of (signature, expected, observed, message)."""
     if obs is None:
-        obs = observe(f, t, K, kw, p)
+        obs = observe(f, t, K, kw, p, operand)
     hdr, rows = tuple(t[0]), [tuple(r) for r in t[1:]]
+    if not f.rawinput:
+        rows = seen_rows(rows, K, operand)      # the input order of the operand
     n = len(rows)
     if obs[0] == 'raises':
         return [('raises', 'a result', '%s: %s' % (obs[1], obs[2]), '%s raised %s' % (f.name, obs[1]))]
@@ -664,25 +733,39 @@ def _plan(tier):
 _PER_ITEM = {0: 1, 1: 64, 2: 48, 3: 32, 4: 24}
 
 
+def _operand_plan(tier):
+    """Blocks on which the operand-kind axis is enumerated (all six kinds, default strategy, no presorted)."""
+    if tier == 'quick':
+        return [('kv2', 0, 3), ('vk', 0, 2), ('ck', 0, 2), ('mv', 0, 2), ('ek', 0, 2),
+                ('kv2~index~index', 0, 2), ('ck~indices~index', 0, 2)]
+    return [('kv', 0, 3), ('vk', 0, 3), ('ck', 0, 3), ('mv', 0, 3), ('ek', 0, 3),
+            ('kv2~index~index', 0, 3), ('kv2~list1~name', 0, 3), ('ck~indices~index', 0, 2), ('ck~list~name', 0, 2)]
+
+
 def items(tier, seed):
     out = []
-    plan = _plan(tier)
     for n in range(0, 5):
-        for kind, lo_n, hi_n in plan:
-            if not (lo_n <= n <= hi_n):
-                continue
-            total = len(_ALPHA[KINDS[kind].base]) ** n
-            step = _PER_ITEM[n] * (3 if kind == 'mv' else 1) * (2 if KINDS[kind].spelled else 1)
-            for lo in range(0, total, step):
-                out.append((kind, n, lo, min(total, lo + step)))
+        for axis, plan in (('plain', _plan(tier)), ('operand', _operand_plan(tier))):
+            for kind, lo_n, hi_n in plan:
+                if not (lo_n <= n <= hi_n):
+                    continue
+                total = len(_ALPHA[KINDS[kind].base]) ** n
+                step = _PER_ITEM[n] * (3 if kind == 'mv' else 1) * (2 if KINDS[kind].spelled else 1)
+                if axis == 'operand':
+                    step = max(1, step // 3)
+                for lo in range(0, total, step):
+                    out.append((kind, n, lo, min(total, lo + step), axis))
     return out
 
 
 def bounds(tier, seed):
     tables = {}
-    for kind, n, lo, hi in items(tier, seed):
-        tables[kind] = tables.get(kind, 0) + hi - lo
+    optables = {}
+    for kind, n, lo, hi, axis in items(tier, seed):
+        d = tables if axis == 'plain' else optables
+        d[kind] = d.get(kind, 0) + hi - lo
     return {'plan': [list(p) for p in _plan(tier)], 'tables_per_kind': tables, 'call_forms': len(FORMS),
+            'operand_kinds': list(OPERAND_KINDS), 'tables_per_kind_on_operand_axis': optables,
             'argument_spellings': {'single key': ['name'] + list(KSPELL_SINGLE),
                                    'compound key': ['name'] + list(KSPELL_COMPOUND), 'value fields': ['name', 'index'],
                                    'strategies on spelled kinds': 'default + presorted (quick), + buffersize=1 (thorough)'},
@@ -699,9 +782,9 @@ def is_nontrivial(rows, K):
     return len(gs) >= 2 and any(len(g) >= 2 for k, g in gs)
 
 
-def case_of(f, K, t, sname, kw, p, sig):
+def case_of(f, K, t, sname, kw, p, sig, operand='tuple'):
     return {'kind': K.name, 'form': f.name, 'param': p, 'strategy': dict(kw), 'strategy_class': sname,
-            'table': [tuple(r) for r in t], 'sig': sig, 'missing_alt': _MISSING_ALT}
+            'operand': operand, 'table': [tuple(r) for r in t], 'sig': sig, 'missing_alt': _MISSING_ALT}
 
 
 def family(f):
@@ -712,16 +795,57 @@ def family(f):
     return f.name
 
 
-def group_of(f, sname, K, sig):
+def group_of(f, sname, K, sig, operand='tuple'):
     """Violation group: call form x strategy class for the canonical spelling; for the alternative argument
-    spellings one group per (form family, spelling) - the strategy is then in the case only."""
+    spellings one group per (form family, spelling) - the strategy is then in the case only; on the
+    operand-kind axis one group per (form family, operand kind)."""
+    if operand != 'tuple':
+        return '%s [input is %s] | %s' % (family(f), OPERAND_LABEL[operand], sig)
     if not K.spelled:
         return '%s [%s] | %s' % (f.name, sname, sig)
     return '%s [key as %s%s] | %s' % (family(f), K.kspell, ', value fields by index' if K.vspell == 'index' else '', sig)
 
 
+OPERAND_LABEL = {'sort': 'sort(t, key)', 'sort-rev': 'sort(t, key, reverse=True)', 'sort-other': 'sort(t, other key)',
+                 'sort-buf1': 'sort(t, key, buffersize=1)', 'cache': 'cache(t)', 'gen': 'a generator-backed Table'}
+
+
+def run_operand_item(item, acc):
+    """Operand-kind axis: every applicable form with the default strategy (no presorted) on every operand kind."""
+    kind, n, lo, hi, axis = item
+    K = KINDS[kind]
+    forms = [f for f in FORMS.values() if applicable(f, K) and f.strat in ('sorted', 'plain')]
+    for rows in _tables(kind, n, lo, hi):
+        t = (K.hdr,) + rows
+        nt = is_nontrivial(rows, K)
+        unsorted = not key_sorted(rows, K)
+        for operand in OPERAND_KINDS:
+            for f in forms:
+                if f.nonempty and not rows:
+                    continue
+                for p in f.params(n):
+                    obs = observe(f, t, K, {}, p, operand)
+                    acc.states += 1
+                    acc.transitions += 1
+                    acc.evals += 1
+                    acc.counters['op:' + f.name] += 1
+                    acc.counters['operand:' + operand] += 1
+                    if nt:
+                        acc.nontrivial += 1
+                    if unsorted:
+                        acc.counters['unsorted-operand:%s:%s' % (operand, family(f))] += 1
+                    for sig, e, o, msg in judge(f, t, K, {}, p, obs, operand):
+                        acc.violation(group_of(f, 'default', K, sig, operand),
+                                      case_of(f, K, t, 'default', {}, p, sig, operand), e, o,
+                                      msg + ' (input table is %s)' % OPERAND_LABEL[operand])
+                    if f.name == 'aggregate(list,id)':
+                        acc.outcome((operand, obs))
+
+
 def run_item(item, acc):
-    kind, n, lo, hi = item
+    if len(item) == 5 and item[4] == 'operand':
+        return run_operand_item(item, acc)
+    kind, n, lo, hi = item[:4]
     K = KINDS[kind]
     forms = [f for f in FORMS.values() if applicable(f, K)]
     for rows in _tables(kind, n, lo, hi):
@@ -763,7 +887,8 @@ def replay(case):
     p = case['param']
     if isinstance(p, list):
         p = tuple(p)
-    bad = [b for b in judge(f, t, K, dict(case['strategy']), p) if b[0] == case['sig']]
+    bad = [b for b in judge(f, t, K, dict(case['strategy']), p, operand=case.get('operand', 'tuple'))
+           if b[0] == case['sig']]
     if not bad:
         return None
     sig, e, o, msg = bad[0]
@@ -776,6 +901,11 @@ def vacuity(cov, tier):
     for s in ('default', 'buffersize', 'presorted'):
         if not c.get('strategy:' + s):
             problems.append('strategy %s never ran' % s)
+    fams = sorted(set(family(f) for f in FORMS.values() if f.strat in ('sorted', 'plain')))
+    for operand in OPERAND_KINDS:
+        for fam in fams:
+            if not c.get('unsorted-operand:%s:%s' % (operand, fam)):
+                problems.append('operand kind %s never met %s on a table with unsorted keys' % (operand, fam))
     for base in ('kv2', 'vk', 'ck'):
         for name, quick in SPELLED[base]:
             K = KINDS[name]
